@@ -48,7 +48,11 @@ RegionsOf(kind) ==
     [] kind = "tso"     -> {<<"f", r>> : r \in {"version", "count.lo", "count.hi"}} \cup {<<"rec", r>> : r \in {"tsid", "off.lo", "off.hi"}}
     \* metrics series data: version(1) then per series: tsid(8) length(4) compressed payload(length)
     [] kind = "tsg"     -> {<<"f", "version">>} \cup {<<"ser", r>> : r \in {"tsid", "len.lo", "len.hi", "payload"}}
-    [] OTHER            -> {<<"f", r>> : r \in {"b0", "head", "body", "tail"}}    \* sst cmi crup tth mnm mbsu
+    \* segment statistics: version(1) then per column: name length(2) name, record length(4), record = version(1) isNumeric(1)
+    \* count(8) hll size(4) hll, then numeric: (type tag(1) value(8)) x min, max, sum + numeric count(8) | else string statistics
+    [] kind = "sst"     -> {<<"f", "version">>} \cup {<<"col", r>> : r \in {"cnamelen", "cname", "sstlen", "rver", "isnum", "count", "hllsize",
+                                                                         "hll", "dtype", "num", "strstats"}}
+    [] OTHER            -> {<<"f", r>> : r \in {"b0", "head", "body", "tail"}}    \* cmi crup tth mnm mbsu
 LogKinds == {"csg", "cmi", "bsu", "sst", "sfm", "pqmr", "srt", "crup", "segmeta"}
 MetricKinds == {"tso", "tsg", "tth", "mnm", "mbsu", "mmeta"}
 Kinds == LogKinds \cup MetricKinds
@@ -70,7 +74,7 @@ Faults == {[kind |-> k, chunk |-> cr[1], region |-> cr[2], fault |-> "flip", tc 
 ValidFault(f) == /\ <<f.chunk, f.region>> \in RegionsOf(f.kind)
                  /\ (SharedIndex(f.kind) => f.fault = "flip")    \* truncating a shared file removes OTHER segments' lines: not a single-segment fault
                  \* a region of one byte cannot be cut "inside"
-                 /\ ~(f.fault = "trunc" /\ f.tc = "inside" /\ f.region \in {"enc", "b0", "version"})
+                 /\ ~(f.fault = "trunc" /\ f.tc = "inside" /\ f.region \in {"enc", "b0", "version", "rver", "isnum", "dtype"})
 
 VARIABLES phase,      \* "intact" -> "damaged" -> "read0" -> "readN" -> "done"
           fault,      \* the injected fault (or the empty record)
